@@ -31,7 +31,7 @@ CHECKS.update({
    "In every reachable state within the depth bound pool.liquidity equals the sum over covering positions and every tick's net/gross/initialized equal the sums over bounding positions, in both encodings, incl. shared bounds, full range, landing on ticks, reaching price bounds.",
    SVM, "DESIGN.md §3 C05"),
  "C06": (A, "model_checking",
-   "explicit-state search; per-swap-step oracle from the H2 trace (rate and in-range liquidity re-derived from the pool and the positions) + totals from real balances/accounts + emitted event + conservation of what the positions can newly claim (real updates on pre/post copies); enumerated exact-out swaps whose total input lies within 8 units of 2^64 (must all be refused); fee and protocol-fee setters inside the search on an adaptive-fee pool",
+   "explicit-state search; per-swap-step oracle from the H2 trace (rate and in-range liquidity re-derived from the pool and the positions) + totals from real balances/accounts + emitted event + conservation of what the positions can newly claim (real updates on pre/post copies); enumerated exact-out swaps whose total input lies within 8 units of 2^64 (must all be refused); fee and protocol-fee setters inside the search on an adaptive-fee pool; a world whose two mints withhold a Token-2022 transfer fee (the split is stated at the vaults)",
    "Every swap transition within the depth bound splits exactly as stated (per-step fee, protocol cut, growth; trader debit/credit; Traded event); every collect_protocol_fees pays exactly what is owed and resets it; fee / protocol rates varied inside the search.",
    SVM + " Hook H2 is trusted to record the values the swap loop used.", "DESIGN.md §3 C06"),
  "C08": (A, "model_checking",
@@ -62,7 +62,7 @@ CHECKS.update({
    "For every op sequence up to the completed depth (swaps across/onto/short of bounds both ways, liquidity changes incl. shared and de-initialised bounds, updates, collects; accumulators at 0, mid-range and just below wrap-around; pool starting on a bound): collected+owed of every position is at most its exact pro-rata entitlement and short of it by less than L/2^64 per credited step + 1 per update.",
    SVM + " Hook H2 supplies per-step liquidity/fee and crossings; the active set is re-derived from position ranges and cross-checked against each step's liquidity.", "DESIGN.md §3 C07"),
  "C11": (A, "model_checking",
-   "explicit-state search in ledger mode with the harness clock: exact rational shadow ledgers of reward entitlements per position and reward index (upper bound driven by the harness clock alone, lower bound by the harness\'s own record of settling instructions); enabledness oracles for emission changes, collects and earlier timestamps (incl. re-setting and lowering a rate in force after collects drained the vault, through both handlers); the third reward is paid in a Token-2022 mint with a transfer fee (partial payouts), a root in which only the second reward emits, a position beyond a zero-liquidity gap, reward-authority hand-overs",
+   "explicit-state search in ledger mode with the harness clock: exact rational shadow ledgers of reward entitlements per position and reward index (upper bound driven by the harness clock alone, lower bound by the harness\'s own record of settling instructions); enabledness oracles for emission changes, collects and earlier timestamps (incl. re-setting and lowering a rate in force after collects drained the vault, through both handlers); the third reward is paid in a Token-2022 mint with a transfer fee (partial payouts), a root in which only the second reward emits, a position beyond a zero-liquidity gap, reward-authority hand-overs; a full-range-only pool whose price is carried out of the usable range and back",
    "For every op sequence up to the completed depth (clock steps, swaps moving positions in/out of range, liquidity changes, updates, collects against a vault holding exactly one day of emissions, emission changes incl. refused ones, late reward initialisation): credited rewards are within the two-sided rounding bound of the exact share; nothing accrues at zero liquidity or for uninitialised rewards; earlier timestamps fail; collect pays min(owed, vault); emission changes settle at the old rate and need a day of emissions.",
    SVM, "DESIGN.md §3 C11"),
  "C15": (A, "fault_enumeration",
